@@ -50,7 +50,7 @@ func configs() []Config {
 }
 
 func genCase(t *rapid.T) Case {
-	o := mpcl.Opts{MaxStmts: 7, MaxDepth: 3, Helpers: 1, Arrays: true, Loops: true,
+	o := mpcl.Opts{MaxStmts: 7, MaxDepth: 3, Helpers: 1, Arrays: true, Loops: true, DynIndex: true,
 		MulHeavy: rapid.IntRange(0, 9).Draw(t, "mulheavy") < 7, MaxWidth: maxWidth()}
 	p := mpcl.Draw(t, o)
 	// All assignments when the inputs have <= 16 bits (thorough) or <= 11
